@@ -26,6 +26,17 @@ func genC18(g *gen) {
 			v := g.operand(&prefix, &nv, dt, sh, lay)
 			shared = append(shared, v)
 		}
+		// … and tensors that own their data in another layout than the default one: the clone of a view with gaps, the
+		// clone of a lazily transposed tensor (reductions, reshapes and transposes work on a compacted copy of these -
+		// never on the shared tensor itself)
+		for _, lay := range []string{"sliced", "lazyT"} {
+			if g.r.chance(1, 2) {
+				v := g.operand(&prefix, &nv, dt, sh, lay)
+				prefix = append(prefix, fmt.Sprintf("clone $%d", v))
+				shared = append(shared, nv)
+				nv++
+			}
+		}
 		// every shared tensor is formatted once before the goroutines start: the text "running alone"
 		verbs := []string{"%v", "%+v", "%#v", "%.2f", "%d", "%s", "%-v"}
 		for _, v := range shared {
